@@ -27,6 +27,7 @@ structure World where
   cache : List (String × Data)         -- shared cache (cache mode only)
   cacheMode : Bool
   starlette : Bool                     -- StarletteIntegration.set_state_data drops the provider's older entries
+  oauth1 : Bool := false               -- the OAuth 1 apps raise on an unknown request token BEFORE calling clear_state_data
   now : Int
 
 inductive Op
@@ -73,7 +74,7 @@ def step (w : World) : Op → World × Out
       let w' := setSession w i (purge w.now (old.filter fun e => e.key != key))
       match old.find? fun e => e.key == key with
       | some e => (w', .proceeds e.data)
-      | none => (w', .mismatch)
+      | none => (if w.oauth1 then w else w', .mismatch)
   | .advance dt => ({ w with now := w.now + dt }, .ticked)
 
 /-- the redirect_uri the token request carries (`_format_state_params` + `fetch_access_token`): the one saved for the
@@ -86,7 +87,7 @@ def sentRedirect (defaults : List (String × String)) (name : String) (d : Data)
 /-- a history: the ops so far, newest last, with the worlds they produced -/
 def run (w : World) (ops : List Op) : World := ops.foldl (fun st op => (step st op).1) w
 
-def init (cacheMode starlette : Bool) (now : Int) : World :=
-  { sessions := fun _ => [], cache := [], cacheMode := cacheMode, starlette := starlette, now := now }
+def init (cacheMode starlette : Bool) (now : Int) (oauth1 : Bool := false) : World :=
+  { sessions := fun _ => [], cache := [], cacheMode := cacheMode, starlette := starlette, oauth1 := oauth1, now := now }
 
 end Model.ClientState
